@@ -26,8 +26,13 @@ Marked(t) == {WithMk(v, <<"m1">>) : v \in TakeN(Vals(t, W), 2)} \cup {WithMk(Nul
              \cup UNION {TakeN(MarkNested(v, <<"m2">>), 2) : v \in TakeN(Vals(t, W), 3)}
 TS == SetToSeq(MT)
 Mine == SetToSeq({i \in 1..Len(TS) : i % ShardN = ShardI})
+\* values whose own type still contains placeholders (DynamicVal / untyped null members, unknown collections of dynamic)
+DynNested == {SeqV(TTup(<<TDyn>>), <<DynVal>>), SeqV(TTup(<<TDyn, TNum>>), <<Null(TDyn), NumV(4)>>), MapV(TObj([a |-> TDyn]), [a |-> DynVal]),
+              MapV(TObj([a |-> TDyn, b |-> TStr]), [a |-> Null(TDyn), b |-> StrV(<<"a">>)]), Unk(TList(TDyn), NoRf), Unk(TMap(TDyn), [null |-> "F"]),
+              Null(TList(TDyn)), SeqV(TList(TDyn), <<>>), DynVal, Null(TDyn), SeqV(TTup(<<TTup(<<TDyn>>)>>), <<SeqV(TTup(<<TDyn>>), <<DynVal>>)>>)}
+DynLines == {[vals |-> <<v>>, tys |-> <<TDyn, v.ty>>] : v \in DynNested}
 Line(t) == [vals |-> SetToSeq(Base(t) \cup Marked(t)), tys |-> SetToSeq({t} \cup DynAtM(t))]
-ASSUME LET out == [j \in 1..Len(Mine) |-> Line(TS[Mine[j]])] IN ndJsonSerialize(IOEnv.VOUT, out) /\ PrintT(<<"GEN", Len(out)>>)
+ASSUME LET out == [j \in 1..Len(Mine) |-> Line(TS[Mine[j]])] \o (IF ShardI = 0 THEN SetToSeq(DynLines) ELSE <<>>) IN ndJsonSerialize(IOEnv.VOUT, out) /\ PrintT(<<"GEN", Len(out)>>)
 VARIABLE x
 Init == x = 0
 Next == UNCHANGED x
